@@ -136,7 +136,7 @@ func TestC18Withdraw(t *testing.T) {
 		if m.multiMaturePaid > 0 {
 			cl = append(cl, "owner_with_two_paying_pools")
 		}
-		st.Case(m.multiMaturePaid > 0, map[string]interface{}{"kind": "withdraw", "history": m.log}, append(cl, "withdraw_events")...)
+		st.Case(m.multiMaturePaid > 0, map[string]interface{}{"kind": "withdraw", "history": m.log}, append(append(cl, m.commonClasses()...), "withdraw_events")...)
 		_ = fmt.Sprint
 	})
 }
